@@ -42,6 +42,7 @@ def run_history(n, ops, keyed=False):
         src = {f'k{j}': j for j in range(n)} if keyed else list(range(n))
         insts = [lazy_dataset.new(src).map(up).cache()]
         outs = []
+        its = {}
         for op in ops:
             if op['k'] == 'copy':
                 if op['inst'] < len(insts):
@@ -56,7 +57,18 @@ def run_history(n, ops, keyed=False):
                 state['mem'] = op['mem']
                 ds = insts[op['inst']]
                 idx = op['i']
-                if keyed and op.get('by_key') and 0 <= idx < n:
+                if 'it' in op:
+                    # the same access made by an iterator in flight (CacheDataset.__iter__ is `self[i]` for
+                    # i = 0, 1, ...): `it` names the iterator, created at its first step
+                    if op['it'] not in its:
+                        with_key = bool(keyed and op.get('by_key'))
+                        its[op['it']] = (iter(ds.items()) if with_key else iter(ds), with_key)
+                    it, with_key = its[op['it']]
+                    if with_key:
+                        r = outcome(lambda: next(it)[1])
+                    else:
+                        r = outcome(lambda: next(it))
+                elif keyed and op.get('by_key') and 0 <= idx < n:
                     r = outcome(lambda: ds[f'k{idx}'])
                 else:
                     r = outcome(lambda: ds[idx])
@@ -101,17 +113,43 @@ def oracle(n, ops, outs, counts):
     return fails
 
 
+def resolve(n, ops):
+    """symbolic iterator steps {'k': 'next', 'it': id, 'inst': .., 'mem': ..} become the `get` they are
+    (position = number of earlier steps of that iterator); steps of an exhausted iterator are dropped"""
+    pos, inst_of, out = {}, {}, []
+    for op in ops:
+        if op['k'] != 'next':
+            out.append(op)
+            continue
+        it = op['it']
+        inst_of.setdefault(it, op['inst'])
+        p = pos.get(it, 0)
+        if p >= n:
+            continue
+        pos[it] = p + 1
+        out.append({'k': 'get', 'inst': inst_of[it], 'i': p, 'mem': op['mem'], 'it': it})
+    return out
+
+
 def gen_history(rng, n, length, p_false):
     ops = []
     ninst = 1
+    nit = 0
+    p_it = rng.choice([0.0, 0.3, 0.6])
     for _ in range(length):
-        if rng.random() < 0.15:
+        if rng.random() < p_it:
+            if nit == 0 or rng.random() < 0.25:
+                nit += 1
+                ops.append({'k': 'next', 'it': nit - 1, 'inst': rng.randrange(ninst), 'mem': rng.random() >= p_false})
+            else:
+                ops.append({'k': 'next', 'it': rng.randrange(nit), 'inst': 0, 'mem': rng.random() >= p_false})
+        elif rng.random() < 0.15:
             ops.append({'k': 'copy', 'inst': rng.randrange(ninst)})
             ninst += 1
         else:
             ops.append({'k': 'get', 'inst': rng.randrange(ninst), 'i': rng.randint(-n - 1, n),
                         'mem': rng.random() >= p_false})
-    return ops
+    return resolve(n, ops)
 
 
 def real_paths(rng):
@@ -200,10 +238,13 @@ def run(rep):
     # bounded-exhaustive: all histories of length <= 3 over a 2-example dataset, one instance + optional copy
     base_ops = [{'k': 'get', 'inst': 0, 'i': i, 'mem': m} for i in (-2, -1, 0, 1, 2) for m in (True, False)]
     base_ops += [{'k': 'copy', 'inst': 0}, {'k': 'get', 'inst': 1, 'i': 1, 'mem': True}, {'k': 'get', 'inst': 1, 'i': -1, 'mem': False}]
+    base_ops += [{'k': 'next', 'it': 0, 'inst': 0, 'mem': True}, {'k': 'next', 'it': 1, 'inst': 0, 'mem': True}]
     import itertools
-    for L in (1, 2, 3):
+    for L in (1, 2, 3, 4):
         for combo in itertools.product(base_ops, repeat=L):
-            hists.append((2, list(combo), False))
+            if L == 4 and sum(o['k'] == 'next' for o in combo) < 2:
+                continue
+            hists.append((2, resolve(2, [dict(o) for o in combo]), False))
     hists = hists if tier == 'thorough' else rng.sample(hists, 500)
     for _ in range(400 if tier == 'quick' else 8000):
         n = rng.randint(1, 6)
